@@ -42,6 +42,10 @@ func main() {
 		runChurn(os.Args[2:])
 	case "readyloop":
 		runReadyloop(os.Args[2:])
+	case "tornsave":
+		runTornsave(os.Args[2:])
+	case "tornsave-child":
+		runTornsaveChild(os.Args[2:])
 	case "rendezvous":
 		setupLogger()
 		runRendezvous(os.Args[2:])
